@@ -1,7 +1,7 @@
 """System-call level legs built on trace.py: skeleton correspondence, confinement, kill sweeps,
 errno injection.  Each leg returns a dict {failures, disagreements, evaluations, distinct_nontrivial,
 samples, ...} that bin/check merges into the evidence."""
-import re, os, re, shutil, hashlib, json, itertools, time
+import re, os, sys, shutil, hashlib, json, itertools, time
 from concurrent.futures import ThreadPoolExecutor
 from . import common as C
 from . import engine as E
@@ -994,7 +994,9 @@ def leg_cold_start_race(flavours, rounds, procs=8):
     import subprocess
     failures, samples = [], []
     evaluations, kinds = 0, set()
-    for rd in range(rounds):
+    rd, retries = -1, 0
+    while rd + 1 < rounds:
+        rd += 1
         scratch = os.path.join(C.scratch_root(), f"cold{next(E._counter)}")
         shutil.rmtree(scratch, ignore_errors=True)
         os.makedirs(scratch)
@@ -1012,12 +1014,24 @@ def leg_cold_start_race(flavours, rounds, procs=8):
             with open(fin, "wb") as fh:
                 fh.write(("\n".join(ops) + "\n").encode())
             ps.append((subprocess.Popen([C.drive_bin(binfl), scratch], stdin=open(fin, "rb"), stdout=open(fout, "wb"),
-                                        stderr=subprocess.DEVNULL, env=dict(os.environ, DRIVE_REUSE="1")), fout, binfl))
+                                        stderr=open(fout + ".err", "wb"), env=dict(os.environ, DRIVE_REUSE="1")), fout, binfl))
         for p, fout, binfl in ps:
             try:
                 p.wait(timeout=120)
             except subprocess.TimeoutExpired:
                 p.kill()
+        # a process that printed nothing at all never reached the cache (the harness answers every operation, panics
+        # included): the machine could not start it (thread / memory limits under load) - the round says nothing and
+        # is repeated, at most three times
+        dead = [(p.returncode, open(fout + ".err", "rb").read().decode(errors="replace")[-300:]) for p, fout, _ in ps
+                if not open(fout, "rb").read().strip()]
+        if dead and retries < 3:
+            retries += 1
+            rd -= 1
+            sys.stderr.write(f"cold start race: round repeated, {len(dead)} processes did not start: {dead[0]}\n")
+            shutil.rmtree(scratch, ignore_errors=True)
+            time.sleep(2)
+            continue
         for (ops, k, v), (p, fout, binfl) in zip(plans, ps):
             out = open(fout, "rb").read().decode(errors="replace").splitlines()
             for i, op in enumerate(ops[1:5], start=1):
